@@ -147,6 +147,10 @@ def tlc(ctx, module, cfg_text, name, env=None, workers=1, timeout=900, heap="6g"
         pass
     if m:
         res["generated"], res["distinct"] = int(m.group(1)), int(m.group(2))
+    else:
+        ms = re.search(r"The number of states generated: (\d+)", out)   # simulation mode
+        if ms:
+            res["generated"] = int(ms.group(1))
     mi = re.search(r"Error: Invariant (\w+) is violated", out)
     if mi:
         res["violated"] = mi.group(1)
